@@ -552,6 +552,7 @@ def _run_strong_sim(
     # digital_tjm signature: (traj_idx, MPS, NoiseModel | None, StrongSimParams, QuantumCircuit) -> NDArray[np.float64]
     # We type as Any to keep ty happy without over-constraining element types.
     backend: Callable[[tuple[int, MPS, NoiseModel | None, StrongSimParams, QuantumCircuit]], Any] = digital_tjm
+    requested_num_traj = sim_params.num_traj
 
     # If there's no noise at all, we don't need multiple trajectories
     if noise_model is None or all(proc["strength"] == 0 for proc in noise_model.processes):
@@ -617,6 +618,8 @@ def _run_strong_sim(
 
     # Reduce per-trajectory results into final arrays/statistics per observable
     sim_params.aggregate_trajectories()
+    # A noise-free run uses one trajectory; the user's request stays on the (reusable) parameter object
+    sim_params.num_traj = requested_num_traj
 
 
 # ---------------------------------------------------------------------------
@@ -785,6 +788,7 @@ def _run_analog(
     # Choose integrator order (1 or 2) for the analog TJM backend
 
     backend: Callable[[Any], NDArray[np.float64]]
+    requested_num_traj = sim_params.num_traj
     if sim_params.solver == "Lindblad":
         backend = lindblad
     elif sim_params.solver == "MCWF":
@@ -869,6 +873,8 @@ def _run_analog(
 
     # Aggregate per-trajectory data into final arrays/statistics
     sim_params.aggregate_trajectories()
+    # A deterministic run uses one trajectory; the user's request stays on the (reusable) parameter object
+    sim_params.num_traj = requested_num_traj
 
 
 # ---------------------------------------------------------------------------
